@@ -80,6 +80,8 @@ type Wrap struct {
 	// AfterGet, if set, is called after every point read returned (the caller is a goroutine of the system under test:
 	// blocking here is a descheduled reader that has its value in hand).
 	AfterGet func(key, val []byte, err error)
+	// OracleFault, if set, is asked before every GetTimestampOracle; a non-nil error is returned instead (a PD outage)
+	OracleFault func() error
 
 	seq int64
 }
@@ -103,6 +105,16 @@ func (w *Wrap) GetPartitions(ctx context.Context, start, end []byte) ([]storage.
 		}
 	}
 	return w.KvStorage.GetPartitions(ctx, start, end)
+}
+
+// GetTimestampOracle implements storage.KvStorage
+func (w *Wrap) GetTimestampOracle(ctx context.Context) (uint64, error) {
+	if f := w.OracleFault; f != nil {
+		if err := f(); err != nil {
+			return 0, err
+		}
+	}
+	return w.KvStorage.GetTimestampOracle(ctx)
 }
 
 // Get implements storage.KvStorage
